@@ -95,10 +95,93 @@ def runtime_tables(info):
     return '\n'.join(L) + '\n'
 
 
+def _ranges(codes):
+    out = []
+    for c in codes:
+        if out and out[-1][1] == c - 1:
+            out[-1][1] = c
+        else:
+            out.append([c, c])
+    return out
+
+
+def lean_ranges(r):
+    return '[' + ', '.join(f'({a}, {b})' for a, b in r) + ']'
+
+
+def _class_shape(pat, flags, begin, end):
+    """Check with the interpreter's own regex parser that `pat` is `^?[class]+$?` and return the
+    code points of the class (computed by matching every code point with the running `re`)."""
+    import re as _re
+    import sys
+    if flags:
+        raise TranslateError(f'regex {pat!r} has flags {flags}')
+    try:
+        tree = list(_re._parser.parse(pat))
+    except Exception as ex:
+        raise TranslateError(f'cannot parse regex {pat!r}: {ex}')
+    ops = [str(op) for op, _ in tree]
+    want = (['AT'] if begin else []) + ['MAX_REPEAT'] + (['AT'] if end else [])
+    if ops != want:
+        raise TranslateError(f'regex {pat!r} has shape {ops}, expected {want}')
+    rep = tree[1 if begin else 0][1]
+    if rep[0] != 1 or str(rep[1]) != 'MAXREPEAT' or [str(o) for o, _ in rep[2]] not in (['IN'], ['LITERAL'], ['NOT_LITERAL']):
+        raise TranslateError(f'regex {pat!r}: repetition is not class+')
+    c = _re.compile(pat)
+    return [cp for cp in range(sys.maxunicode + 1) if c.fullmatch(chr(cp))]
+
+
+def _str_set(node):
+    """`set("a b c".split())`, a set/list/tuple literal of strings."""
+    if isinstance(node, ast.Call) and isinstance(node.func, ast.Name) and node.func.id in ('set', 'frozenset') and len(node.args) == 1:
+        node = node.args[0]
+    if isinstance(node, ast.Call) and isinstance(node.func, ast.Attribute) and node.func.attr == 'split' and not node.args:
+        return sorted(set(ast.literal_eval(node.func.value).split()))
+    return sorted(set(ast.literal_eval(node)))
+
+
+def xml_consts(repo, info):
+    import re as _re
+    import sys
+    mod = _module(os.path.join(repo, 'bluebell', 'xml.py'))
+    cls = _classes(mod)
+    ia = _assigns(cls['IdGenerator'].body)
+    lead = _class_shape(*_re_pattern(ia['leading_punct_re']), True, False)
+    trail = _class_shape(*_re_pattern(ia['trailing_punct_re']), False, True)
+    punct = _class_shape(*_re_pattern(ia['punct_re']), False, False)
+    wpat, wflags = _re_pattern(ia['whitespace_re'])
+    if wflags:
+        raise TranslateError('whitespace_re has flags')
+    wtree = [str(op) for op, _ in _re._parser.parse(wpat)]
+    if wtree != ['IN'] and wtree != ['LITERAL']:
+        raise TranslateError(f'whitespace_re {wpat!r} is not a single character class')
+    wc = _re.compile(wpat)
+    ws = [cp for cp in range(sys.maxunicode + 1) if wc.fullmatch(chr(cp))]
+    exempt = _str_set(ia['id_exempt'])
+    passthru = _str_set(ia['id_exempt_but_pass_to_children'])
+    numexp = _str_set(ia['num_expected'])
+    aliases = ast.literal_eval(ia['aliases'])
+    info['xml'] = {'id_exempt': exempt, 'pass_through': passthru, 'num_expected': numexp, 'aliases': aliases,
+                   'lead': _ranges(lead), 'trail': _ranges(trail), 'punct': _ranges(punct), 'ws': _ranges(ws)}
+    L = ['/-- `IdGenerator.id_exempt` -/',
+         f'def idExempt : List String := {lean_strs(exempt)}',
+         '/-- `IdGenerator.id_exempt_but_pass_to_children`, each with its `str.lower()` -/',
+         f'def idPassThrough : List (String × String) := {lean_pairs([(x, x.lower()) for x in passthru])}',
+         f'def numExpected : List String := {lean_strs(numexp)}',
+         f'def eidAliases : List (String × String) := {lean_pairs(sorted(aliases.items()))}',
+         '/-- code point ranges matched by leading_punct_re / trailing_punct_re / whitespace_re / punct_re (single characters) -/',
+         f'def eidLeadRanges : List (Nat × Nat) := {lean_ranges(_ranges(lead))}',
+         f'def eidTrailRanges : List (Nat × Nat) := {lean_ranges(_ranges(trail))}',
+         f'def eidWsRanges : List (Nat × Nat) := {lean_ranges(_ranges(ws))}',
+         f'def eidPunctRanges : List (Nat × Nat) := {lean_ranges(_ranges(punct))}']
+    return '\n'.join(L) + '\n'
+
+
 def generate(repo):
     info = {}
     parts = ['import Bluebell.Peg.Syntax\nnamespace Bluebell\n']
     parts.append(parser_consts(repo, info))
     parts.append(runtime_tables(info))
+    parts.append(xml_consts(repo, info))
     parts.append('end Bluebell\n')
     return '\n'.join(parts), info
